@@ -34,6 +34,19 @@ CLAIMED["C03"] = dict(
          "nesting and the four entry points' agreement are checked by the bounded stand-in geometry_entry_points only.",
     technique=TECH + "; quantified nested-list encoding (lists as functions of index tuples)",
 )
+CLAIMED["C05"] = dict(
+    level="proof",
+    text="Proved relative to the shapely view contract: for each of the nine types the real conversion functions produce "
+         "the expected kind with every coordinate in place (boxes: vertices are exactly the corners); compute_bounds equals "
+         "(min t, min f, max t, max f) over all coordinates (holes inside the shell's box as validity precondition); the nine "
+         "feature functions and their dispatch table give duration/low/high/bandwidth(/parts) of those bounds with the right "
+         "terms; each of the nine named anchor positions is the corresponding corner/midpoint/centre; invalid position raises.",
+    note="Trusted: engine, solvers, pydantic construction contract, and the assumed shapely contract (constructors store "
+         "coordinates, box corner order, rings closed, .bounds = coordinate min/max with polygon = shell, len(.geoms)). "
+         "Sub-claim decided only by the bounded stand-in geometry_measures: centroid / point_on_surface lie inside the bounds "
+         "(GEOS); the stand-in also checks the shapely contract on the installed version. Floats as reals (mode R).",
+    technique=TECH + "; assumed external contracts as abstract shape views; per-type obligations",
+)
 ALL = [f"C{n:02d}" for n in range(1, 21)]
 NOT_APPLICABLE = {p: "check not built yet in this session (work in progress; see DESIGN.md section 12 build order)"
                   for p in ALL if p not in CLAIMED}
